@@ -481,7 +481,11 @@ pub fn c18(c: &Case, rep: &mut Report, seed: u64) {
             // everything else (other exports, internal callers) still reaches the original
             let first = din.exports.iter().find(|e| e.kind == decode::EKind::Func && e.index == fi).map(|e| e.name.clone()).unwrap_or_default();
             let results: Vec<ValType> = din.sig_of_func(fi).map(|s| s.results.iter().map(|t| t.wp()).collect()).unwrap_or_default();
-            let a = observe_with_override(input, &calls, Box::new(StdHost::new()), &first, &results);
+            let empty = end.num(&format!("empty.{}", &k[4..])).is_some();
+            if empty {
+                rep.count("exported-functions-replaced-by-an-empty-body", 1);
+            }
+            let a = observe_with_override_opt(input, &calls, Box::new(StdHost::new()), &first, &results, !empty);
             (a, observe(out, &calls, Box::new(StdHost::new())))
         };
         let mut b = b_;
@@ -532,6 +536,11 @@ pub fn c18(c: &Case, rep: &mut Report, seed: u64) {
 /// Like `observe`, but calls to the export `name` are answered by the model of the replacement body
 /// (one traced host call, marker results) without running anything.
 pub fn observe_with_override(wasm: &[u8], calls: &[Call], host: Box<dyn Host>, name: &str, results: &[ValType]) -> Observation {
+    observe_with_override_opt(wasm, calls, host, name, results, true)
+}
+
+/// `traces`: the replacement body calls the harness's trace import (false: the replacement body is empty)
+pub fn observe_with_override_opt(wasm: &[u8], calls: &[Call], host: Box<dyn Host>, name: &str, results: &[ValType], traces: bool) -> Observation {
     let mut o = Observation::default();
     let mut inst = match Instance::instantiate(wasm, host, limits()) {
         Ok(i) => i,
@@ -549,7 +558,7 @@ pub fn observe_with_override(wasm: &[u8], calls: &[Call], host: Box<dyn Host>, n
             let vals: Vec<Val> = results.iter().map(|t| marker_for(*t)).collect();
             let s = outcome_str(&inst, &Outcome::Returned(vals));
             let st = state_str(&inst);
-            o.steps.push((s, vec!["REPLACED".to_string()], st));
+            o.steps.push((s, if traces { vec!["REPLACED".to_string()] } else { vec![] }, st));
             continue;
         }
         let out = inst.call_export(&c.export, &c.args);
